@@ -4,7 +4,8 @@ import WinterProofs.Lemmas.C14Merkle
 import WinterProofs.Lemmas.C14Sched
 
 namespace WinterProofs.C14
-open Model.Parallel Model.Fft
+open Model.Parallel
+open Model.Fft (brev permuteIndex isPow2)
 
 variable {α : Type} (merge : α → α → α)
 
